@@ -8,7 +8,8 @@ request  (one JSON object per line):
    "maxsize": null | n, "ops": [[name, arg...], ...]}
     arguments: ints, booleans, lists of ints, lists of [k,v] pairs; an omitted optional argument is
     simply absent; `reset` takes a tagged value (null | int | {"l":[..]} | {"d":[[k,v]..]} | {"s":[..]});
-    set `pop` carries the element the real `set.pop()` returned (the choice oracle);
+    set `pop` on side "ref" carries the element that was removed from the real mimic set (the choice
+    oracle of the `set` abstraction); on side "battery" the model chooses by the implemented rule;
     `["snapshot"]` = deserialize(serialize(state)) into a freshly constructed battery.
 response: {"res": [value | {"e": "IndexError"}, ...], "state": value, "maxsize": n}
 -/
@@ -194,9 +195,8 @@ def stepSt (st : St) (n : String) (a : Array Json) : Except String (St × Res) :
   | .bDict s => do let (s', r) := ReplDict.step s (← parseDictOp n a); pure (.bDict s', r)
   | .rDict s => do let (s', r) := RefDict.step s (← parseDictOp n a); pure (.rDict s', r)
   | .bSet s => do
-    let (op, oracle) ← parseSetOp n a
-    let choose : PySet.S → Int := fun cur => oracle.getD (cur.headD 0)
-    let (s', r) := ReplSet.step choose s op; pure (.bSet s', r)
+    let (op, _) ← parseSetOp n a           -- the battery chooses by its own rule; no oracle
+    let (s', r) := ReplSet.step s op; pure (.bSet s', r)
   | .rSet s => do
     let (op, oracle) ← parseSetOp n a
     let choose : PySet.S → Int := fun cur => oracle.getD (cur.headD 0)
